@@ -277,14 +277,13 @@ class ResolvePortRefs(ElabPass):
         # Copy any relevant attributes of the Port
         sig = self.copy_port(port)
 
-        # Set the signal name, either from the NoConn or the instance/port names
+        # Set the signal name, either from the NoConn or the instance/port names,
+        # in either case avoiding everything already in the Module namespace.
         if noconn.name is not None:
-            sig.name = noconn.name
+            segments = [noconn.name]
         else:
-            sig.name = self.flatname(
-                segments=[f"{portref.inst.name}_{portref.portname}"],
-                avoid=module.namespace,
-            )
+            segments = [f"{portref.inst.name}_{portref.portname}"]
+        sig.name = self.flatname(segments=segments, avoid=module.namespace)
 
         # Add the new signal, and connect it to `inst`
         module.add(sig)
